@@ -2,10 +2,13 @@ import ShkModel.Model.Audition
 /-!
 # C08 — from spotlight lines to data points (`pkg/cmd/spotlight.go` detectSignals)
 
-Signal patterns are restricted to the whole-line family
+Signal patterns are restricted to the record family
 `^(?P<ts_now>)<name>=(?P<kind>\S+)$` and `^(?P<ts_K>) <name>=(?P<kind>\S+)$`
-(K = deltasecs, rfc3339, log) — the shape of all shipped examples; matching itself is
-re-implemented here for that family (Go's `regexp` is trusted for the rest).
+(K = deltasecs, rfc3339, log) — the shape of all shipped examples — where the record is the
+whole line (`pos = 0`), the part of the line before its first ` | ` (`pos = 1`, pattern
+`^R(?: \| .*)?$`) or the part after its last ` | ` (`pos = 2`, pattern `^.* \| R$`): one line
+may so carry two records with their own dates.  Matching itself is re-implemented here for
+that family (Go's `regexp` is trusted for the rest).
 Core only.
 -/
 namespace Shk.Spot
@@ -20,6 +23,8 @@ structure SigDef where
   tag : String
   typ : Typ
   ts : TsKind
+  /-- which record of the line the pattern describes: 0 whole line, 1 first, 2 last -/
+  pos : Nat := 0
 deriving Repr
 
 def isDig (c : Char) : Bool := '0' ≤ c && c ≤ '9'
@@ -141,7 +146,7 @@ deriving DecidableEq, Repr
 
 /-- does the signal's pattern match the line? `none` = no.  `some (st, v)`: `st = none` when the
 captured time stamp is rejected by the parser (malformed date); `v` = the captured text. -/
-def matchSig (epoch : Rat) (sd : SigDef) (line : List Char) : Option (Option Stamp × List Char) :=
+def matchRec (epoch : Rat) (sd : SigDef) (line : List Char) : Option (Option Stamp × List Char) :=
   match sd.ts with
   | .now => (matchTagged sd.tag line).map fun v => (some .now, v)
   | .deltasecs =>
@@ -164,6 +169,29 @@ def matchSig (epoch : Rat) (sd : SigDef) (line : List Char) : Option (Option Sta
     match parseLogTs (line.take 22), line.drop 22 with
     | some r, ' ' :: rest => (matchTagged sd.tag rest).map fun v => (r.map fun u => Stamp.at (u - epoch), v)
     | _, _ => none
+
+/-- the part of the line before its first ` | ` (the whole line without one) -/
+def firstRec : List Char → List Char
+  | [] => []
+  | c :: cs => if (c :: cs).take 3 == [' ', '|', ' '] then [] else c :: firstRec cs
+
+/-- the part of the line after its last ` | `, if there is one -/
+def lastRec : List Char → Option (List Char)
+  | [] => none
+  | c :: cs =>
+    match lastRec cs with
+    | some r => some r
+    | none => if (c :: cs).take 3 == [' ', '|', ' '] then some (cs.drop 2) else none
+
+/-- the record of the line a pattern of position `pos` describes -/
+def recordOf (pos : Nat) (line : List Char) : Option (List Char) :=
+  match pos with
+  | 0 => some line
+  | 1 => some (firstRec line)
+  | _ => lastRec line
+
+def matchSig (epoch : Rat) (sd : SigDef) (line : List Char) : Option (Option Stamp × List Char) :=
+  (recordOf sd.pos line).bind (matchRec epoch sd)
 
 /-! ## Specification: the data points a sequence of lines denotes (oracle and theorem RHS) -/
 
